@@ -159,6 +159,7 @@ fn parse_acts(s: &str) -> Vec<Action> {
 }
 
 struct ECase {
+    pase: bool,
     n_main: u32,
     ab: Vec<Action>,
     ba: Vec<Action>,
@@ -168,6 +169,7 @@ struct ECase {
 
 fn parse_e(f: &[&str]) -> ECase {
     let mut c = ECase {
+        pase: false,
         n_main: 1,
         ab: vec![],
         ba: vec![],
@@ -178,6 +180,7 @@ fn parse_e(f: &[&str]) -> ECase {
         let (k, v) = kv.split_once('=').unwrap();
         match k {
             "m" => c.n_main = v.parse().unwrap(),
+            "sess" => c.pase = v == "pase",
             "ab" => c.ab = parse_acts(v),
             "ba" => c.ba = parse_acts(v),
             "others" => {
@@ -204,8 +207,18 @@ fn run_e(case: &ECase) -> String {
     let det = e2e::dev_det(Some(SAI_MS), Some(SAI_MS));
     let matter_a = e2e::new_matter(det, true);
     let matter_b = e2e::new_matter(det, true);
-    e2e::preset_case_session(&matter_a, &crypto, A_NODE, B_NODE, 1, 2, e2e::node_addr(B), 1, Default::default()).unwrap();
-    e2e::preset_case_session(&matter_b, &crypto, B_NODE, A_NODE, 2, 1, e2e::node_addr(A), 1, Default::default()).unwrap();
+    let mode = || {
+        if case.pase {
+            rs_matter::transport::session::SessionMode::Pase { fab_idx: 0 }
+        } else {
+            rs_matter::transport::session::SessionMode::Case {
+                fab_idx: NonZeroU8::new(1).unwrap(),
+                cat_ids: Default::default(),
+            }
+        }
+    };
+    let a_sess = e2e::preset_session(&matter_a, &crypto, A_NODE, B_NODE, 1, 2, e2e::node_addr(B), mode()).unwrap();
+    e2e::preset_session(&matter_b, &crypto, B_NODE, A_NODE, 2, 1, e2e::node_addr(A), mode()).unwrap();
     let (a_tx, a_rx) = net.attach(A);
     let (b_tx, b_rx) = net.attach(B);
     let blog = BLog::default();
@@ -234,7 +247,7 @@ fn run_e(case: &ECase) -> String {
         .coalesce();
 
         let main_flow = async {
-            let mut ex = Exchange::initiate(&matter_a, &crypto, NonZeroU8::new(1).unwrap(), B_NODE).await?;
+            let mut ex = Exchange::initiate_for_session(&matter_a, &crypto, a_sess)?;
             for m in 0..n_main {
                 let mut payload = [0u8; 5];
                 payload[0] = 1;
@@ -269,7 +282,7 @@ fn run_e(case: &ECase) -> String {
                 }
                 Timer::after(Duration::from_millis(1)).await;
             }
-            let mut ex = Exchange::initiate(&matter_a, &crypto, NonZeroU8::new(1).unwrap(), B_NODE).await?;
+            let mut ex = Exchange::initiate_for_session(&matter_a, &crypto, a_sess)?;
             for i in 0..others_n {
                 let mut payload = [0u8; 7];
                 payload[0] = 2;
@@ -476,6 +489,14 @@ fn generate(tier: &str, seed: u64) -> Vec<String> {
     for k in 0..=6usize {
         e(1, acts_str(&vec!["x"; k]), String::new(), (0, 0));
     }
+    // the same on a passcode (PASE) session: the session kind must not matter
+    // (the extra field rides on the `ba` argument: fields are space separated)
+    for k in [0usize, 2, 6, 9] {
+        e(1, acts_str(&vec!["x"; k]), " sess=pase".to_string(), (0, 0));
+    }
+    // more losses than the budget: nothing may get through afterwards either
+    e(1, acts_str(&vec!["x"; 9]), String::new(), (0, 0));
+    e(2, acts_str(&["d", "x", "d"]), "x.d sess=pase".to_string(), (0, 0));
     // acknowledgements lost k times
     for k in 1..=6usize {
         e(1, String::new(), acts_str(&vec!["x"; k]), (0, 0));
